@@ -125,7 +125,20 @@ func (g *payloadGen) str() *jv {
 }
 
 var intLits = []string{"0", "1", "-1", "42", "2147483647", "-2147483648", "7", "100"}
-var floatLits = []string{"1.5", "-0.25", "3", "0.0", "1e3", "1E-2", "-12.75", "2.5e+2", "123456.789"}
+
+// floatLits: Float payload values. Beyond ordinary fractions the table holds what makes the float
+// options matter: integral floats (small, large, at and beyond the int64 range, negative, -0),
+// non-integral ones, and exponent spellings of both.
+var floatLits = []string{"1.5", "-0.25", "3", "0.0", "1e3", "1E-2", "-12.75", "2.5e+2", "123456.789",
+	// integral, small
+	"2.0", "-7.0", "100", "0", "-0.0", "4.000", "1E2", "1e+0", "12e1", "0.5e1", "0e0", "-1.0e0",
+	// integral, large but inside the int64 range
+	"9007199254740992", "9007199254740993", "-9007199254740993.0", "4611686018427387904", "9.2e18", "-9223372036854775808", "1e15", "123456789012.0", "-9.2E+18",
+	// integral, at / beyond the int64 range (2^63 = 9223372036854775808)
+	"9223372036854775807", "9223372036854775808", "-9223372036854775809", "1e19", "-3e25", "12345678901234567890", "-1e19", "18446744073709551616", "1.5e300", "-1.7976931348623157e308", "9.3e18",
+	// non-integral
+	"0.1", "1e-7", "-2.5E-3", "5e-324", "3.141592653589793", "1234567.5", "-0.000001", "9007199254740992.5",
+}
 
 func (g *payloadGen) anyJSON(depth int) *jv {
 	switch g.r.IntN(7) {
